@@ -72,3 +72,56 @@ example : (match parseSource Variant.fixed 200 (mlText.toList.map Char.toNat) wi
     | _ => false) = true := by decide +kernel
 
 end ZnVerif.Properties.C03.LiteralExample
+
+namespace ZnVerif.Properties.C03.MultiCommentExample
+open ZnVerif.Model ZnVerif.Model.Parser ZnVerif.Generated.Tokens ZnVerif.Generated.ParserTables
+open ZnVerif.Spec.StmtSyntax ZnVerif.Spec.RenderChars ZnVerif.Proofs.StmtRT
+open ZnVerif.Proofs.CmtSim (clean)
+
+/-- comments that span lines: `/* … */` over two lines, `注1：“…”` over two lines (CR LF inside) -/
+def mcText : String := "甲 /*a\nb*/\n注1：“一\r\n二”\n乙"
+
+def mcEls : List El := [
+  .tok (.name [0x7532]), .ws 0x20, .mcmt (.block [0x61, 0x0A, 0x62]), .br .lf 0,
+  .mcmt (.quoted true [0x31] [0x4E00, 0x0D, 0x0A, 0x4E8C]), .br .lf 0, .tok (.name [0x4E59])]
+
+theorem mcText_rendered : renderDoc .tab 0 mcEls = mcText.toList.map Char.toNat := by decide
+
+set_option maxRecDepth 100000 in
+theorem mcEls_wf : DocWF .tab 0 mcEls := by decide +kernel
+
+abbrev mcY : Layout := docLayout .tab 0 mcEls
+
+/-- five lines; the lines left from inside a comment get no `LineText` -/
+example : mcY.lines.size = 5 ∧ mcY.eofIdx = 21 := by decide
+
+private def e1 : Token := { type := cTypeIdentifier, literal := [0x7532], startIdx := 0, endIdx := 1 }
+private def e2 : Token := { type := cTypeIdentifier, literal := [0x4E59], startIdx := 20, endIdx := 21 }
+
+theorem mcTokens_eq : clean (docTokens .tab 0 mcEls) = [e1, e2] := by decide
+
+example : mcY.sl e1 = 0 ∧ mcY.sl e2 = 4 := by decide
+
+def mcProgram : Program :=
+  { imports := [], exec := some (.mk [] (some [.expr (.id (mcY.idOf e1)), .expr (.id (mcY.idOf e2))]) []) }
+
+theorem mcProgram_rendered : LinProgram mcY mcProgram (clean (docTokens .tab 0 mcEls)) := by
+  rw [mcTokens_eq]
+  have h1 : LinN mcY 0 (.stmt (.expr (.id (mcY.idOf e1)))) [e1] :=
+    .simple 0 _ _ (.exprStmt _ _ (linE_id1 e1 rfl) (by decide) (by decide))
+  have h2 : LinN mcY 0 (.stmt (.expr (.id (mcY.idOf e2)))) [e2] :=
+    .simple 0 _ _ (.exprStmt _ _ (linE_id1 e2 rfl) (by decide) (by decide))
+  have hbody : LinN mcY 0 (.block _) ([e1] ++ ([e2] ++ [])) :=
+    .blockCons 0 _ _ _ _ h1 (by decide) (.blockCons 0 _ _ _ _ h2 (by decide) (.blockNil 0) (Or.inl rfl)) (Or.inr (by decide))
+  exact .body 0 _ _ (.execPlain 0 _ _ [] [] hbody (.handNil 0) (Or.inl rfl) (by simp))
+
+example : parseSource Variant.fixed 200 (mcText.toList.map Char.toNat) = .tree mcProgram := by
+  rw [← mcText_rendered]
+  exact parse_render_doc _ .tab 0 mcEls mcEls_wf mcProgram_rendered 200 (by rw [mcTokens_eq]; decide)
+
+set_option maxRecDepth 100000 in
+example : (match parseSource Variant.fixed 200 (mcText.toList.map Char.toNat) with
+    | .tree ⟨[], some (.mk [] (some [.expr (.id ⟨0, _⟩), .expr (.id ⟨4, _⟩)]) [])⟩ => true
+    | _ => false) = true := by decide +kernel
+
+end ZnVerif.Properties.C03.MultiCommentExample
